@@ -75,6 +75,10 @@ CHECKS = {
    technique="TLA+ model of the receive side over a transport that delivers in arbitrary pieces (TLC exhaustive over all segmentations and time-out placements of bounded streams, safety + liveness, with a short-read variant for non-vacuity) + real Do runs over an in-memory connection fed piece by piece, every connection Read, callback and result validated by TLC as a behaviour of that model with the reader's unlogged progress inferred (trace validation)",
    text="TLC checks NoGarbage, Prompt, Exact, TimeoutIsStutter and Finishes for every segmentation of the bounded streams; on the real client ~40 (quick) / 90 (thorough) response scripts x compression modes are delivered in one piece, one byte at a time, cut in two at every offset (to 600 / 4000 bytes, packet edges + stride beyond), in all 2^(n-1) splits of streams up to 11 bytes, in random splits and packet-wise with injected read time-outs in every gap (~22 000 runs quick): Reads start only when the reader lacks bytes, time-outs only at packet boundaries and without effect, callbacks and result equal those of the one-piece run, each callback only after its packet arrived completely, exactly the stream is consumed.",
    note="Trusted: TLC; the in-memory connection and its feeder (next piece only when the reader waits); time-outs are injected, not timed; how far a query that fails inside a malformed packet has read is not compared; which callbacks a stream calls for is C03's subject (the one-piece run is the reference)."),
+ "C12": dict(engine="QueryLifecycle", category="exploration", design_ref="DESIGN.md §5 C12",
+   technique="free-running executions (no gates, no hooks) of the scenario universe of QueryLifecycle.tla / Pool.tla on the real client and pool in a binary built with the Go race detector; TLC model-checks the universe with the foreign Close enabled and decides for every observed outcome whether the model can reach it (Outcome_QL.tla reachability search); the race verdict itself is the race detector's - a data race is below the granularity a TLA+ action model can state",
+   text="~400 (quick) / ~2500 (thorough) free-running query runs - select / insert / streamed insert with progress, profile events and logs arriving while blocks are sent, OpenTelemetry instrumentation on and off, compression modes, a foreign goroutine calling Close, the caller cancelling, a Ping afterwards - and shared-pool runs (6-8 goroutines, health check every 0.3-0.5 ms, lifetimes of 1-3 ms, Close while in use) under -race: any report whose two accesses are library code is a violation; every distinct (configuration, outcome) pair must be reachable in QueryLifecycle.tla; pool runs must satisfy NoPanic and AllClosedAfterClose.",
+   note="Trusted: the Go race detector (reports races of observed executions only; schedules are whatever the Go scheduler produces under harness jitter, not enumerated); TLC; reports involving harness code make the check inconclusive."),
  "C14": dict(engine="Writer", category="model_checking", design_ref="DESIGN.md §5 C14",
    technique="TLA+ model of the vectored writer with explicit backing arrays (TLC exhaustive) + every bounded operation sequence executed on the real proto.Writer and validated by TLC (trace validation)",
    text="Exhaustive at the stated sequence length over a 12-operation alphabet, plus random long sequences; each Flush's delivered bytes are compared by TLC with the specification's pending contents.",
